@@ -162,7 +162,7 @@ impl ToR for R { open spec fn tor(self) -> real { self@ }
 impl R {
     // exact decimal literal p/q (rule R3)
     #[verifier::external_body]
-    pub fn lit(Ghost(p): Ghost<int>, Ghost(q): Ghost<int>) -> (r: R)
+    pub fn lit(p: i128, q: u128) -> (r: R)
         ensures r@ == p as real / q as real { unimplemented!() }
     // `e as f64` (rule R3)
     pub fn cast<T: ToR>(e: T) -> (r: R) ensures r@ == e.tor() { e.to_r() }
